@@ -1,6 +1,7 @@
 package main
 
 import (
+	"bytes"
 	"fmt"
 	"os"
 	"strings"
@@ -205,11 +206,22 @@ func explore(args hx.Args, meta *hx.Meta) {
 	meta.Rule = "real channel under the hook scheduler: configurations (queue sizes 1,2,3,8 and the synchronous channel, blocking / non-blocking, 1-3 writers x 1-3 calls over the five entry points, cancelled caller contexts, 0-2 closers incl. Close(nil), late writers, parent cancellation) x schedules (uniform random, sticky with rare preemption, biased to the release/recheck window, preemption-bounded enumeration of small configurations); non-trivial = the schedule exercises the property's mechanism (>= 2 packets queued at once or a blocked writer; an enqueue in the flush..reacquire window; a closer poll with packets queued; a call begun after Close returned; a full-queue select); distinct = distinct canonical schedule"
 	if args.Replay != "" {
 		var rp struct {
-			Cfg cfg `json:"cfg"`
+			Cfg      cfg     `json:"cfg"`
+			Buffered *bufCfg `json:"buffered"`
 		}
 		if err := hx.LoadReplay(args.Replay, &rp); err != nil {
 			fmt.Println("cannot load replay:", err)
 			os.Exit(2)
+		}
+		if rp.Buffered != nil {
+			got, want, _, stuck := runBuffered(*rp.Buffered, replayStrat(rp.Buffered.Picks))
+			fmt.Printf("connection received %d bytes, written %d bytes, prefix=%v %s\n", len(got), len(want), bytes.HasPrefix(want, got), stuck)
+			if stuck != "" || !bytes.HasPrefix(want, got) || len(got) != len(want) {
+				fmt.Println("REPRODUCED: byte stream at the connection differs from the accepted payloads")
+				os.Exit(1)
+			}
+			fmt.Println("not reproduced")
+			return
 		}
 		o := runCfg(rp.Cfg, replayStrat(rp.Cfg.Picks))
 		check(rp.Cfg, o, meta)
@@ -312,6 +324,9 @@ func explore(args hx.Args, meta *hx.Meta) {
 			}
 			meta.Sample(map[string]interface{}{"cfg": c, "schedule": tr, "batches": o.Batches})
 		}
+	}
+	if prop == "C01" || prop == "C02" {
+		exploreBuffered(rng, meta, prop, hx.Pick3(args.Tier, 600, 20000, 8000))
 	}
 	// preemption-bounded enumeration of small configurations
 	small := []cfg{
